@@ -347,9 +347,6 @@ func (l *listener) Listen() error {
 		return err
 	}
 
-	if taddr.Port == 0 {
-		l.anon = true
-	}
 	if tlist, err := net.ListenTCP("tcp", taddr); err != nil {
 		return err
 	} else if l.iswss {
@@ -360,6 +357,11 @@ func (l *listener) Listen() error {
 	l.pending = nil
 	l.running = true
 	l.bound = l.listener.Addr().(*net.TCPAddr)
+	if taddr.Port == 0 {
+		// Only now: Address uses the bound port, which exists only
+		// once the bind has succeeded.
+		l.anon = true
+	}
 
 	l.htsvr = &http.Server{Addr: l.url.Host, Handler: l.mux}
 
